@@ -349,12 +349,90 @@ def eval_returned_lists(ann):
     return fails
 
 
+def eval_types_list_edited():
+    """The table of known column types is the library's: a caller that adds its own type to the list get_column_types()
+    hands out (to pass it on explicitly) has not taught the library's own loaders that type - a definition naming it is
+    still a definition with an unknown column type, and is rejected."""
+    import json
+    import os
+    import tempfile
+    from maflib import column_types as CT
+    from maflib import scheme_factory as SF
+    where = {"kind": "types-list-edited"}
+
+    class PercentColumn(CT.FloatColumn):
+        pass
+    d = {"version": "lab-9.0.0", "annotation-spec": "lab-9.0.0", "extends": "gdc-1.0.0", "filtered": "None", "columns": [["lab_percent", "PercentColumn"]]}
+    fails = []
+    with tempfile.TemporaryDirectory() as tmp:
+        p = os.path.join(tmp, "lab.json")
+        with open(p, "w") as h:
+            json.dump(d, h)
+
+        def accepted():
+            try:
+                SF.load_all_schemes(extra_filenames=[p])
+                return True
+            except Exception:  # noqa
+                return False
+        if accepted():
+            return []          # (the type is known without any edit: not this case)
+        handed = CT.get_column_types()
+        entry = ("PercentColumn", PercentColumn)
+        try:
+            handed.append(entry)
+            if accepted():
+                fails.append(dict(where, what="after a caller appended its own type to the list handed out by get_column_types(), the library's own loader "
+                                              "accepts a definition naming that type (an unknown column type is no longer rejected)"))
+        finally:
+            try:
+                handed.remove(entry)
+            except ValueError:
+                pass
+    return fails
+
+
+def eval_deep_chain(n):
+    """An inheritance chain of n definitions (each extends the one before and adds nothing), listed base first and leaf
+    first: both orders resolve, to the same layouts.  (The depth of a chain is not bounded by the property; the oracle
+    computes the expected layout directly, without recursion.)"""
+    defs = [{"version": "t-1.0.0", "annotation": "t-1.0.0", "extends": None, "filtered": None, "columns": [["c0", "StringColumn"]]}]
+    for k in range(1, n):
+        defs.append({"version": "t-1.0.0", "annotation": "t-1.0.0-%d" % k, "extends": defs[-1]["annotation"], "filtered": None,
+                     "columns": [["c%d" % k, "NullableStringColumn"]] if k % 400 == 0 else []})
+    want = {}
+    names = []
+    for d in defs:
+        names = names + [c[0] for c in d["columns"]]
+        want[d["annotation"]] = names
+    where = {"kind": "deep-chain", "levels": n}
+    fails = []
+    for label, ordered in (("base first", defs), ("leaf first", defs[::-1])):
+        res = build_impl(ordered)
+        if "exc" in res:
+            fails.append(dict(where, order=label, what="a chain of %d well-formed definitions listed %s was rejected (%s)" % (n, label, res["exc"])))
+            continue
+        got = {x["annotation"]: x["names"] for x in res["schemes"]}
+        if got != want:
+            bad = [a for a in want if got.get(a) != want[a]][:3]
+            fails.append(dict(where, order=label, what="a chain of %d definitions listed %s resolves to other layouts than 'base layout, then new columns' (e.g. %s)" % (n, label, bad)))
+    return fails
+
+
 def returned_list_cases(ctx, out):
     for ann in ["gdc-1.0.0", "gdc-1.0.0-public", "gdc-2.0.0-aliquot-merged-masked"]:
         out.evaluations += 1
         out.failures += eval_returned_lists(ann)
         out.distribution["scheme accessors' lists edited by the caller"] += 1
         out.nontrivial.add(("returned-list", ann))
+    out.evaluations += 1
+    out.failures += eval_deep_chain(1100)
+    out.distribution["inheritance chain of 1100 definitions, base first and leaf first"] += 1
+    out.nontrivial.add(("deep-chain",))
+    out.evaluations += 1
+    out.failures += eval_types_list_edited()
+    out.distribution["list of column types edited by the caller"] += 1
+    out.nontrivial.add(("types-list",))
 
 
 def eval_registry_duplicate(case):
@@ -531,6 +609,18 @@ def shipped_orders(ctx, out, rng):
 
 
 def replay_case(ctx, failure):
+    if failure.get("kind") == "deep-chain":
+        fails = eval_deep_chain(int(failure.get("levels", 1100)))
+        print("replay C14: a chain of %d definitions, each extending the one before; load_all_scheme_data + build_schemes + validate_schemes, base first and leaf first" % int(failure.get("levels", 1100)))
+        for x in fails:
+            print("  oracle: %s" % x["what"])
+        return fails
+    if failure.get("kind") == "types-list-edited":
+        fails = eval_types_list_edited()
+        print("replay C14: types = get_column_types(); types.append(('PercentColumn', <a FloatColumn subclass>)); then load_all_schemes(extra_filenames=[a definition with a column of type 'PercentColumn'])")
+        for x in fails:
+            print("  oracle: %s" % x["what"])
+        return fails
     if failure.get("kind") == "returned-list" and "annotation" in failure:
         fails = eval_returned_lists(failure["annotation"])
         print("replay C14: find_scheme(%s); the lists returned by column_names() / column_descriptions() edited in place; the same instance consulted again" % failure["annotation"])
